@@ -815,8 +815,16 @@ impl CatalogPersistence {
 
         #[cfg(kahflane_turdb_verif)]
         crate::verif::point("catalog_create");
-        let mut file = File::create(path)
-            .wrap_err_with(|| format!("failed to create catalog file at '{}'", path.display()))?;
+        // Write the new catalog beside the old one and rename it into place once it is
+        // synced: truncating the live file meant that a crash during the rewrite left an
+        // empty or partial catalog, i.e. every table and index of the database was lost.
+        let tmp_path = {
+            let mut name = path.file_name().map(|n| n.to_os_string()).unwrap_or_default();
+            name.push(".tmp");
+            path.with_file_name(name)
+        };
+        let mut file = File::create(&tmp_path)
+            .wrap_err_with(|| format!("failed to create catalog file at '{}'", tmp_path.display()))?;
 
         let mut header = vec![0u8; HEADER_SIZE];
 
@@ -859,6 +867,11 @@ impl CatalogPersistence {
             .wrap_err("failed to sync catalog file to disk")?;
         #[cfg(kahflane_turdb_verif)]
         crate::verif::synced(&file);
+        drop(file);
+
+        std::fs::rename(&tmp_path, path).wrap_err_with(|| {
+            format!("failed to move new catalog into place at '{}'", path.display())
+        })?;
 
         Ok(())
     }
